@@ -368,7 +368,31 @@ def race_oracle_factory(opcodes, max_pre, stride2=False):
     return race_oracle
 
 
+RACE_OPS = ["arrive", "POWEROFF", "POWERON", "SETFORMAT", "POWEROFF+POWERON", "arrive+arrive", "arrive+POWEROFF", "POWERON+arrive"]
+
+
+def races_core(ctx, rec):
+    """stratified part of the schedule exploration: every kind of concurrent socket operation against a canonical queue (one due, one
+    future, one stale burst), all schedules with <= 1 pre-emption at line granularity - so that no run depends on the random
+    scenarios happening to contain a particular operation"""
+    from harness.core import Failure
+    fails, seen = [], set()
+    for k, op in enumerate(RACE_OPS):
+        for fn, queue in ([(1000, [0, 1, -1]), (H - 1, [0, 0])] if ctx.tier == "quick" else
+                          [(f_, q_) for f_ in (1000, H - 1, 0) for q_ in ([0, 1, -1], [0, 0], [], [1, 2])]):
+            sc = {"fn": fn, "queue": queue, "op": op, "rel": 0, "badver": False, "fmt": (k + ctx.seed) % 2, "obs_ver": (k // 2 + ctx.seed) % 2}
+            try:
+                n, contended, steps = explore(sc, False, 1, False)
+                rec.note(sc, ["op=" + op, "core"], contended > 0, {"scenario": sc, "schedules": n, "schedules_with_lock_contention": contended})
+            except Violation as v:
+                if v.sig not in seen:
+                    seen.add(v.sig)
+                    fails.append(Failure("races_core_scenarios", sc, v.sig, v.msg))
+    return fails
+
+
 SUBS = [
+    Sub("races_core_scenarios", fn=races_core),
     Sub("histories", strategy=history(), oracle=hist_oracle, examples={"quick": 500, "thorough": 20000}),
     Sub("races_line_1preemption", strategy=scenario(), oracle=race_oracle_factory(False, 1),
         examples={"quick": 30, "thorough": 400}, shards={"quick": 1, "thorough": 16}),
@@ -381,3 +405,4 @@ SUBS = [
     Sub("races_opcode_1preemption", strategy=scenario(), oracle=race_oracle_factory(True, 1),
         examples={"quick": 0, "thorough": 64}, shards={"quick": 1, "thorough": 16}),
 ]
+SUBS[0].replay = race_oracle_factory(False, 1)
